@@ -413,11 +413,13 @@ Definition obs_of (cf : config) (s : state) : observation :=
     records what the HTTPClient's Do returned (mapped as internal.Client.Do maps it) and
     whether it had returned when Close did. *)
 Record xobs := {
-  x_close : option result;      (* what Close returned *)
-  x_do : option result;         (* what Do returned (None: it has not returned within the patience) *)
+  x_close : option result;      (* what Close returned (None: there was no writer to close) *)
+  x_do : option result;         (* what Do returned (None: it has not returned within the patience, or was never called) *)
   x_do_first : bool;            (* Do had returned when Close returned *)
   x_leak : bool;
-  x_hang : bool }.
+  x_hang : bool;
+  x_create : option result;     (* the error of Create itself (None: Create returned a writer) *)
+  x_sent : bool }.              (* a request reached the HTTPClient *)
 
 Definition close_is_do (o : xobs) : bool :=
   match x_close o with
@@ -425,7 +427,20 @@ Definition close_is_do (o : xobs) : bool :=
   | None => false
   end.
 
-Definition xspec_ok (o : xobs) : bool := negb (x_hang o) && negb (x_leak o) && close_is_do o.
+(** [xmodel_agrees]: what the transition system does — Create hands out a writer, and
+    Close returns after [Do] and exactly what [Do] returned. *)
+Definition xmodel_agrees (o : xobs) : bool :=
+  opt_result_eqb (x_create o) None && negb (x_hang o) && negb (x_leak o) && close_is_do o.
+
+(** [xspec_ok dead]: the property.  It speaks of a streamed upload (Create, Write...,
+    Close).  When the context is already dead when Create is called ([dead]), Create may
+    also refuse outright: then there is no upload whose Close could hang or lie, and what
+    must hold is that the error is the context's, no request reached the transport, and
+    no goroutine of the library is left. *)
+Definition xspec_ok (dead : bool) (o : xobs) : bool :=
+  xmodel_agrees o ||
+  (dead && opt_result_eqb (x_create o) (Some RCtx) && opt_result_eqb (x_close o) None &&
+   negb (x_sent o) && negb (x_leak o) && negb (x_hang o)).
 
 (** the observation a state of the transition system corresponds to *)
 Definition xobs_of (cf : config) (s : state) : xobs :=
@@ -433,4 +448,6 @@ Definition xobs_of (cf : config) (s : state) : xobs :=
      x_do := match go s with GDo => None | _ => Some (result_of (env s)) end;
      x_do_first := match go s with GDo => false | _ => true end;
      x_leak := negb (go_exited s);
-     x_hang := negb (caller_finished cf s) |}.
+     x_hang := negb (caller_finished cf s);
+     x_create := None;
+     x_sent := true |}.
